@@ -18,9 +18,22 @@ Definition success (o : observed) : bool :=
   match o with ORes S2 _ _ _ _ => true | _ => false end.
 
 (* split on whatever the goal still branches on *)
+Ltac unfold_defs :=
+  unfold authenticate, p_token, p_code, p_refresh, p_cc, p_te, p_bearer, p_device, p_introspect, p_revoke,
+    p_device_authz, l_token, l_with_client, l_parse, l_verify_client, l_introspect, l_revoke, l_device_authz,
+    private_jwt, by_secret, client_id_from_request, device_client_authenticated, secret_check, secret_ok,
+    assertion_ok, bearer_ok, parse_creds, r4, r5,
+    token_justified, cred_valid, authenticated, introspect_justified, revoke_justified, device_authz_justified,
+    refusal_shape in *.
+
 Ltac split_goal :=
-  repeat (cbn in *;
+  cbn; unfold_defs;
+  repeat (cbn;
     match goal with
+    | |- context [andb ?b _] => is_var b; destruct b
+    | |- context [andb _ ?b] => is_var b; destruct b
+    | |- context [negb ?b] => is_var b; destruct b
+    | |- context [if ?b then _ else _] => is_var b; destruct b
     | |- context [if ?b then _ else _] => destruct b eqn:?
     | |- context [match ?x with _ => _ end] => destruct x eqn:?
     end);
@@ -48,7 +61,7 @@ Qed.
 
 Ltac open_input i :=
   destruct i as [r e c rg p g]; destruct c as [fpost fpk fref ccc cte cdev];
-  destruct rg as [known meth app gs key]; destruct known, key.
+  destruct rg as [known meth app gs key].
 
 (* ---------------- success is justified *)
 
